@@ -188,7 +188,21 @@ pub fn panic_fp(text: &str) -> String {
             break;
         }
     }
-    format!("panic: {msg} @ {rel}")
+    // numbers inside the message (indices, lengths) vary with the input, not with the root cause
+    let mut norm = String::with_capacity(msg.len());
+    let mut in_num = false;
+    for ch in msg.chars() {
+        if ch.is_ascii_digit() {
+            if !in_num {
+                norm.push('#');
+            }
+            in_num = true;
+        } else {
+            in_num = false;
+            norm.push(ch);
+        }
+    }
+    format!("panic: {norm} @ {rel}")
 }
 
 /// A panic caught around driver code -> Failure with a location-independent fingerprint. A panic
